@@ -1,6 +1,7 @@
 import TF.Model.PolyNtt
 import TF.Proofs.PolySpecNtt
 import TF.Proofs.NttFinal
+import TF.Proofs.PolyMulHom
 /-!
 Bridge between property C06 (the executable model of the Rust in-place NTT, `TF/Model/Ntt.lean`) and property C07
 (NTT-based polynomial products, `TF/Model/PolyMul.lean`, proved correct for every transform with `TransformSpec`):
@@ -15,7 +16,7 @@ Bridge between property C06 (the executable model of the Rust in-place NTT, `TF/
 open Polynomial Finset
 
 namespace TF.Model.Poly
-open TF.Model.Ntt TF.NttFn TF.NttProofs TF.Gen
+open TF.Model.Ntt TF.NttFn TF.NttProofs TF.Gen TF.Model.Poly.Hom
 
 /-! ### the model NTT over an arbitrary field -/
 section Generic
@@ -250,6 +251,38 @@ theorem bNtt_intt_canon (xs ys : List Nat) (h : bNtt.intt xs = some ys) : ∀ y 
   simp only [Array.toList_map, List.mem_map] at hy
   obtain ⟨a, _, rfl⟩ := hy
   exact Nat.mod_lt _ P_pos
+
+/-! ### canonical values versus `ZMod P`: the records the driver runs correspond under `Nat.cast` -/
+
+/-- `Nat.cast : ℕ → ZMod P` -/
+noncomputable def zc : Nat → ZMod P := fun n => (n : ZMod P)
+
+/-- the operation record of `ZMod P` (root look-up = the translated table) -/
+noncomputable abbrev FZ : FieldOps (ZMod P) := FieldOps.ofField (ZMod P) zRoot
+
+/-- `bfieldOps` (integer arithmetic modulo `P` on naturals) corresponds to the field operations of `ZMod P` -/
+theorem bfield_opsMap : OpsMap TF.bfieldOps FZ zc (fun a => a < P) where
+  zero := by simp [zc, FZ, TF.bfieldOps]
+  one := by simp [zc, FZ, TF.bfieldOps]
+  add := fun a b => by simp [zc, FZ, TF.bfieldOps, cast_fadd]
+  sub := fun a b => by simp [zc, FZ, TF.bfieldOps, cast_fsub]
+  mul := fun a b => by simp [zc, FZ, TF.bfieldOps, cast_fmul]
+  isZero := by
+    intro a ha
+    rw [Bool.eq_iff_iff, FZ, FieldOps.ofField_isZero]
+    simp only [TF.bfieldOps, beq_iff_eq, zc]
+    rw [cast_eq_zero_iff, Nat.mod_eq_of_lt ha]
+  ok_zero := P_pos
+  ok_one := by decide
+  ok_add := fun a b => Nat.mod_lt _ P_pos
+  ok_sub := fun a b => Nat.mod_lt _ P_pos
+  ok_mul := fun a b => Nat.mod_lt _ P_pos
+
+/-- the transform on canonical values corresponds to the transform over `ZMod P` -/
+theorem bNtt_transMap : TransMap bNtt zNtt zc (fun a => a < P) where
+  ntt := fun xs => (bNtt_cast xs).1
+  intt := fun xs => (bNtt_cast xs).2
+  ok_intt := bNtt_intt_canon
 
 end Base
 
